@@ -667,6 +667,30 @@ func checkNest(nc nestCase) (fw.Outcome, *fw.Violation) {
 	if len(nc.Rows) >= 160 {
 		addClass("rows:large")
 	}
+	bigFp := ""
+	{
+		var allKeys []keyItem
+		var collect func(x *query)
+		collect = func(x *query) {
+			if x != nil {
+				allKeys = append(allKeys, x.Keys...)
+				collect(x.Inner)
+				collect(x.Other)
+			}
+		}
+		collect(q)
+		if beyond, sameImage, withFloat, _ := bigIntInfo(nc.Rows, allKeys); beyond {
+			addClass("key_integers_beyond_2^53")
+			bigFp = "|big"
+			if sameImage {
+				addClass("key_integers_with_same_float64_image")
+				bigFp += "+same_image"
+			}
+			if withFloat {
+				addClass("key_integers_beyond_2^53_next_to_floats")
+			}
+		}
+	}
 
 	if q.NoID {
 		addClass("outer_distinct_without_id")
@@ -721,7 +745,7 @@ func checkNest(nc nestCase) (fw.Outcome, *fw.Violation) {
 				for _, k := range q.Keys {
 					dirs += nc.Kinds[k.Col][:1] + k.Dir + k.Nulls + ","
 				}
-				o.Fingerprint = fmt.Sprintf("nest|%s|%s|tb:%s|%s", q.shape(), dirs, q.TieBreak, bc)
+				o.Fingerprint = fmt.Sprintf("nest|%s|%s|tb:%s|%s%s", q.shape(), dirs, q.TieBreak, bc, bigFp)
 			}
 			return o, nil
 		}
